@@ -102,6 +102,8 @@ func (x *ifaceRun) legal(op Op, private bool) bool {
 	switch op.K {
 	case opCreateAccount:
 		return x.creatable(ifaceAddrs[op.A])
+	case opSetState:
+		return x.r.sdb.Exist(ifaceAddrs[op.A])
 	case opSubBalance:
 		return x.r.sdb.GetBalance(ifaceAddrs[op.A]).Int64() >= int64(op.V) && x.r.sdb.GetBalance(ifaceAddrs[op.A]).Sign() >= 0
 	case opSubRefund:
@@ -311,6 +313,7 @@ type ifaceStats struct {
 	divergentByKinds  sync.Map // signature -> *int64
 	completedFullLen  int
 	completedCoreLen  int
+	completedCore5Len int
 	maxSnapshotNested int64
 }
 
